@@ -769,6 +769,7 @@ impl UntypedFnDef {
                         };
                         errors.push(Some(TypeError::new(e, self.meta)));
                     }
+                    expect_untyped_numbers_in_range(&body, &mut errors);
                     if errors.is_empty() {
                         Ok(TypedFnDef {
                             is_pub: self.is_pub,
@@ -790,6 +791,102 @@ impl UntypedFnDef {
             Err(e) => {
                 errors.extend(e);
                 Err(errors)
+            }
+        }
+    }
+}
+
+/// A number that nothing gave a type is computed with 32 bits, so its value must be a 32-bit value.
+fn expect_untyped_numbers_in_range(stmts: &[TypedStmt], errors: &mut TypeErrors) {
+    fn in_expr(expr: &TypedExpr, errors: &mut TypeErrors) {
+        let untyped_unsigned = UnsignedNumType::Unspecified;
+        let out_of_range = match &expr.inner {
+            ExprEnum::NumUnsigned(n, _) => match expr.ty {
+                Type::Unsigned(UnsignedNumType::Unspecified) => *n > u32::MAX as u64,
+                Type::Signed(SignedNumType::Unspecified) => *n > i32::MAX as u64,
+                _ => false,
+            },
+            ExprEnum::NumSigned(n, _) => {
+                expr.ty == Type::Signed(SignedNumType::Unspecified)
+                    && (*n < i32::MIN as i64 || *n > i32::MAX as i64)
+            }
+            ExprEnum::Range(_, to, num_ty) => *num_ty == untyped_unsigned && *to - 1 > u32::MAX as u64,
+            _ => false,
+        };
+        if out_of_range {
+            let e = TypeErrorEnum::UnexpectedType {
+                expected: Type::Signed(SignedNumType::I32),
+                actual: expr.ty.clone(),
+            };
+            errors.push(Some(TypeError::new(e, expr.meta)));
+        }
+        match &expr.inner {
+            ExprEnum::True
+            | ExprEnum::False
+            | ExprEnum::NumUnsigned(_, _)
+            | ExprEnum::NumSigned(_, _)
+            | ExprEnum::Identifier(_)
+            | ExprEnum::Range(_, _, _) => {}
+            ExprEnum::ArrayLiteral(exprs)
+            | ExprEnum::TupleLiteral(exprs)
+            | ExprEnum::FnCall(_, exprs)
+            | ExprEnum::EnumLiteral(_, _, VariantExprEnum::Tuple(exprs))
+            | ExprEnum::BuiltInFnCall(BuiltInFnCall::Join { args: exprs, .. }) => {
+                for expr in exprs {
+                    in_expr(expr, errors);
+                }
+            }
+            ExprEnum::EnumLiteral(_, _, VariantExprEnum::Unit) => {}
+            ExprEnum::StructLiteral(_, fields) => {
+                for (_, expr) in fields {
+                    in_expr(expr, errors);
+                }
+            }
+            ExprEnum::ArrayRepeatLiteral(expr, _)
+            | ExprEnum::ArrayRepeatLiteralConst(expr, _)
+            | ExprEnum::TupleAccess(expr, _)
+            | ExprEnum::StructAccess(expr, _)
+            | ExprEnum::UnaryOp(_, expr)
+            | ExprEnum::Cast(_, expr) => in_expr(expr, errors),
+            ExprEnum::ArrayAccess(a, b) | ExprEnum::Op(_, a, b) => {
+                in_expr(a, errors);
+                in_expr(b, errors);
+            }
+            ExprEnum::If(a, b, c) => {
+                in_expr(a, errors);
+                in_expr(b, errors);
+                in_expr(c, errors);
+            }
+            ExprEnum::Match(expr, clauses) => {
+                in_expr(expr, errors);
+                for (_, expr) in clauses {
+                    in_expr(expr, errors);
+                }
+            }
+            ExprEnum::Block(stmts) => expect_untyped_numbers_in_range(stmts, errors),
+        }
+    }
+    for stmt in stmts {
+        match &stmt.inner {
+            StmtEnum::Let(_, _, expr) | StmtEnum::LetMut(_, _, expr) | StmtEnum::Expr(expr) => {
+                in_expr(expr, errors)
+            }
+            StmtEnum::VarAssign(_, accessors, expr) => {
+                for (accessor, _) in accessors {
+                    if let Accessor::ArrayAccess { index, .. } = accessor {
+                        in_expr(index, errors);
+                    }
+                }
+                in_expr(expr, errors);
+            }
+            StmtEnum::ForEachLoop(_, expr, body) => {
+                in_expr(expr, errors);
+                expect_untyped_numbers_in_range(body, errors);
+            }
+            StmtEnum::JoinLoop(_, _, (a, b), body) => {
+                in_expr(a, errors);
+                in_expr(b, errors);
+                expect_untyped_numbers_in_range(body, errors);
             }
         }
     }
